@@ -112,10 +112,13 @@ def retry_unit(ctx):
     n = ctx.fresh(IntS, "attempts")
     attempts = SInt(ctx, n)
     A1, KV = object(), object()
+    # the call's own keyword arguments may have ANY name - also the names a retry helper is likely to use for its own parameters
+    KW = {"k": KV, "attempts": object(), "exc_type": object(), "f": object(), "fn": object(), "func": object(), "self": object(), "args": object(),
+          "kwargs": object(), "retry": object(), "exception": object(), "wrapper": object()}
 
     def f(*args, **kwargs):
-        ctx.check("f/args-forwarded", bool(len(args) == 1 and args[0] is A1 and list(kwargs.items()) == [("k", KV)]
-                                          and kwargs["k"] is KV), props=["C10"])
+        ctx.check("f/args-forwarded", bool(len(args) == 1 and args[0] is A1 and list(kwargs) == list(KW)
+                                          and all(kwargs[k_] is KW[k_] for k_ in KW)), props=["C10"])
         ctx.check("f/no-call-after-success", bool(g.last is None or g.last[0] != "ret"), props=["C10"])
         g.calls = g.calls + 1
         o = ctx.choose(5, "f")
@@ -151,7 +154,7 @@ def retry_unit(ctx):
         return "identity"
     ctx.check("create_retry/wrapper-iff-attempts>=2", n >= 2)
     try:
-        r = wrapped(A1, k=KV)
+        r = wrapped(A1, **KW)
     except BaseException as e:
         if ctx.dead is not None:
             raise
@@ -230,4 +233,39 @@ def retry_stateless_unit(ctx):
 
 from .sysprobe import replay_for as _replay_for  # noqa: E402
 
-REPLAYS = [("retry.*", _replay_for(['C10', 'C04'], 1500))]
+NATIVE_SCRIPT = """
+import sys
+from uberjob._util.retry import create_retry
+bad = []
+names = ["k", "attempts", "exc_type", "f", "fn", "func", "self", "args", "kwargs", "retry", "exception", "wrapper"]
+for n in (2, 3):
+    for fail_first in (0, 1, n - 1, n):
+        seen = []
+        def f(*a, **k):
+            seen.append((a, dict(k)))
+            if len(seen) <= fail_first: raise ValueError("attempt %d" % len(seen))
+            return ("ok", len(seen))
+        kw = {nm: object() for nm in names}
+        try: out = ("ret", create_retry(n)(f)(1, **kw))
+        except Exception as e: out = ("raise", type(e).__name__, str(e))
+        want = ("ret", ("ok", fail_first + 1)) if fail_first < n else ("raise", "ValueError", "attempt %d" % n)
+        if out != want or any(a != (1,) or list(k) != names or any(k[x] is not kw[x] for x in names) for a, k in seen):
+            bad.append((n, fail_first, out, want, len(seen)))
+for b in bad[:4]: print("create_retry(%d) around a call with keyword arguments named like a helper's parameters, failing %d time(s) first: got %r, expected %r (%d invocations)" % b)
+sys.exit(1 if bad else 0)
+"""
+
+
+def _replay_native(ob):
+    import os
+
+    from ujvc.units import run_native_p
+    from ujvc.z3env import REPO_SRC
+
+    p = run_native_p(["/venv/bin/python", "-c", NATIVE_SCRIPT], env=dict(os.environ, PYTHONPATH=REPO_SRC), timeout=120)
+    if p.returncode == 1:
+        return {"reproduced": True, "detail": (p.stdout + p.stderr)[-2000:], "script": NATIVE_SCRIPT}
+    return _replay_for(['C10', 'C04'], 1500)(ob)
+
+
+REPLAYS = [("retry.*", _replay_native)]
